@@ -30,7 +30,7 @@ neighbor 127.0.0.2 {
   peer-as 65002;
   capability { asn4 %(asn4)s; aigp enable; }
   api { processes [ api ]; receive { parsed; update; notification; } }
-  family { ipv4 unicast; ipv6 unicast; }
+  family { ipv4 unicast; ipv6 unicast; ipv4 nlri-mpls; ipv4 mpls-vpn; }
 }
 """
 
@@ -57,6 +57,9 @@ SEEDS = {
     'v4': dict(nlri=[c02.N4('10.2.0.0', 16), c02.N4('10.3.3.0', 24)], mp=None),
     'v6': dict(nlri=[], mp=(2, 1, '2001:db8::1', [c02.N6('2001:db8:1::', 48), c02.N6('2001:db8:2::', 48)])),
     'both': dict(nlri=[c02.N4('10.2.0.0', 16)], mp=(2, 1, '2001:db8::1', [c02.N6('2001:db8:1::', 48)])),
+    # labeled and VPN routes in MP_REACH (their NLRI carry labels / route distinguishers the withdraw must name too)
+    'lab4': dict(nlri=[], mp=(1, 4, '10.0.0.9', [w.nlri_ip(1, 4, '10.4.0.0', 16, None, (3,)), w.nlri_ip(1, 4, '10.4.4.0', 24, None, (16, 17))])),
+    'vpn4': dict(nlri=[c02.N4('10.2.0.0', 16)], mp=(1, 128, '10.0.0.9', [w.nlri_ip(1, 128, '10.5.0.0', 16, None, (100,), c02.RD0)])),
 }
 
 
@@ -179,7 +182,7 @@ def setup(asn4):
         return _W[asn4]
     exa.reset_process_state()
     cfg, n = exa.neighbor_from_text(CFG % dict(asn4='enable' if asn4 else 'disable'))
-    body = exa.peer_open_body(65002, [(1, 1), (2, 1)], asn4=asn4)
+    body = exa.peer_open_body(65002, [(1, 1), (2, 1), (1, 4), (1, 128)], asn4=asn4)
     neg = exa.negotiated_for(n, body, direction_out=False)
     _W[asn4] = (n, neg)
     return _W[asn4]
@@ -409,7 +412,7 @@ def worker(args):
 
 
 def run(ctx: core.Ctx) -> None:
-    ctx.rule = (f'3 seeds (IPv4 NLRI x2, MP_REACH IPv6 x2, both) x 2 sessions (ASN4 on/off) x every attribute of the seed ({len(SEED_ATTRS)} + MP_REACH) x 3 positions (first, middle, last) x every corruption '
+    ctx.rule = (f'{len(SEEDS)} seeds (IPv4 NLRI x2, MP_REACH IPv6 x2, both, MP_REACH labeled x2, IPv4 NLRI + MP_REACH VPN) x 2 sessions (ASN4 on/off) x every attribute of the seed ({len(SEED_ATTRS)} + MP_REACH) x 3 positions (first, middle, last) x every corruption '
                 '(length-1, length+1, zero length, overrun of the block, swallowing the next attribute, optional/transitive flag flipped, RFC-named invalid values, duplicate, extended-length flag lie); '
                 'non-trivial = every case (each is a distinct malformed UPDATE); distinct outcomes = (attribute, corruption, result class)')
     ctx.assumptions += ['reference encoder vt/ref/wire.py', 'RFC 7606 classes: ATOMIC_AGGREGATE/AGGREGATOR/AS4_AGGREGATOR attribute-discard, others treat-as-withdraw; a session reset with 3/x is always accepted; announcing nothing is accepted']
